@@ -1,5 +1,7 @@
 package redis
 
+import "crypto/tls"
+
 func init() {
 	vsymHarnesses["HarnessC08Gate"] = HarnessC08Gate
 	vsymHarnesses["HarnessC08Long"] = HarnessC08Long
@@ -109,7 +111,13 @@ func HarnessC08Gate() {
 	h.onCall = func(h *vhandler, c *vcall) {
 		hc = c.conn
 	}
-	server.receive(conn, nil)
+	if vsymParamInt("tls", 0) == 1 {
+		// the same gate on a connection that arrived through the TLS port (handshake completed, no certificate rule)
+		server.receive(conn, &tls.ConnectionState{})
+		vsymCover("tls")
+	} else {
+		server.receive(conn, nil)
+	}
 	_ = hc
 	ends, ok := vStrictStream(conn.out)
 	vsymAssert(ok && len(ends) == len(exps), "one-reply-per-request")
